@@ -32,5 +32,7 @@ Inv ==
     \A o \in Modes :
       LET c == [ks |-> keys, vals |-> vals, hasvals |-> hasvals, o |-> o, nodes |-> nodes]
           m == TLCEval(Encode(c)) IN
-      \A q \in Strings : GetIDB(m, q) = ModelGetID(keys, nodes, o, q)
+      \A q \in Strings :
+        /\ GetIDB(m, q) = ModelGetID(keys, nodes, o, q)
+        /\ SearchIDB(m, q) = [x \in 1..3 |-> LET y == SearchIDm(keys, nodes, o, q)[x] IN IF y = -1 THEN -1 ELSE y - 1]
 =============================================================================
